@@ -4,19 +4,35 @@
 // case <id> key except mode okey steps | aux | obs
 //
 //	key    hex of Config.Key (the base64 text)          except  hexlist of Config.Except
-//	mode   0 = Encryptor/Decryptor left nil (defaults), 1 = the exported EncryptCookie/DecryptCookie
-//	       given explicitly, 2 = custom pair (tag 'X' + reversed text around the default pair)
+//	mode   "<codec>" or "<codec>.<next>.<recover>"
+//	       codec   0 = Encryptor/Decryptor left nil (defaults), 1 = the exported EncryptCookie/DecryptCookie
+//	               given explicitly, 2 = custom pair (tag 'X' + reversed text around the default pair),
+//	               3 = faulty custom pair: as 2, but the Encryptor returns an error for values starting
+//	               with ERR and panics for values starting with PANIC, the Decryptor panics on texts
+//	               starting with PANIC
+//	       next    Config.Next: 0 = nil, 1 = always false, 2 = true iff the request has `X-Skip: 1`,
+//	               3 = always true
+//	       recover 1 = fiber's recover middleware is registered in front of everything
 //	okey   hex of another key text (for "encrypted under another key" pieces)
 //	steps  symbolic history (what -replay re-executes), see parseSteps
 //	aux    facts the harness derives with fasthttp / stdlib crypto and the Lean side takes as given:
 //	       per step  J<request cookies as fasthttp parsed them, before the middleware>
-//	                 /K<names looked up> /R<response cookies as the handler left them, with parse>
-//	                 /P<parse of the response cookies after the middleware>
-//	                 /T<independent AES-GCM open of each value after the middleware, under `key`>
+//	                 /K<names looked up> /R<response cookies when the handlers behind are done, with parse>
+//	                 /P<parse of the response cookies where the middleware is left>
+//	                 /T<independent AES-GCM open of each of those values, under `key`>
 //	                 /Q<Cookie header values as fasthttp stored them> /D<direct SetCookie calls on top>
+//	                 /N<1 if Config.Next must say skip for this request> /F<o|e|p: the handler returns nil,
+//	                 returns an error, panics> /O<response cookies when the middleware is entered>
+//	                 /A<cookie writes executed after the middleware was left: r|a:key:raw:parse>
+//	                 /U<parse of the cookies on the wire>
 //	obs    what the implementation did, per step:
-//	       E<cookies the handler enumerates> /L<c.Cookies(name)> /B<Bind().Cookie map> /H<c.Get("Cookie")>
+//	       V<1 if the handler behind the middleware ran> /E<cookies the handler enumerates> /L<c.Cookies(name)>
+//	       /B<Bind().Cookie map> /H<c.Get("Cookie"):other renderings of the Cookie header>
+//	       /N<- | number of Config.Next calls . its result> /M<Set-Cookie list where the middleware is left>
 //	       /W<Set-Cookie list on the wire | panic>
+//
+// The app is: [recover] -> observer (sets cookies before and after its c.Next(), snapshots the response
+// where encryptcookie is left) -> encryptcookie -> handler; the ErrorHandler may set cookies too.
 package main
 
 import (
@@ -30,6 +46,7 @@ import (
 	"fmt"
 	"hash/fnv"
 	"io"
+	"sort"
 	"strconv"
 	"strings"
 	"time"
@@ -37,6 +54,7 @@ import (
 	"github.com/gofiber/fiber/v3"
 	"github.com/gofiber/fiber/v3/log"
 	"github.com/gofiber/fiber/v3/middleware/encryptcookie"
+	rec "github.com/gofiber/fiber/v3/middleware/recover"
 	"github.com/valyala/fasthttp"
 
 	"verifharness/internal/gen"
@@ -77,7 +95,8 @@ type src struct {
 }
 
 type op struct {
-	kind  byte // C: c.Cookie(...), A: Response().Header.Add("Set-Cookie", raw)
+	kind  byte // C: c.Cookie(...), A: Response().Header.Add("Set-Cookie", raw), X: c.ClearCookie(name...),
+	// E: the handler returns an error, P: the handler panics (both after its other operations)
 	name  string
 	value string
 	attr  int
@@ -86,13 +105,51 @@ type op struct {
 type step struct {
 	srcs []src
 	ops  []op
+	skip bool // the request carries `X-Skip: 1`
+	// cookie writes by code that is not behind the middleware (only C and A)
+	outerPre  []op // the observer middleware in front, before its c.Next()
+	outerPost []op // ... after its c.Next()
+	ehOps     []op // the app's ErrorHandler
 }
 
 type cfgIn struct {
 	key    string
 	except []string
-	mode   int
+	mode   int // codec
+	next   int // Config.Next
+	rec    bool
 	okey   string
+	ktag   string // generator's label of the key shape (distribution report only)
+}
+
+func (c cfgIn) modeField() string {
+	if c.next == 0 && !c.rec {
+		return strconv.Itoa(c.mode)
+	}
+	r := 0
+	if c.rec {
+		r = 1
+	}
+	return fmt.Sprintf("%d.%d.%d", c.mode, c.next, r)
+}
+
+func parseModeField(f string) (mode, next int, rc, ok bool) {
+	parts := strings.Split(f, ".")
+	if len(parts) != 1 && len(parts) != 3 {
+		return 0, 0, false, false
+	}
+	var n [3]int
+	for i, p := range parts {
+		v, err := strconv.Atoi(p)
+		if err != nil || v < 0 || len(p) != 1 {
+			return 0, 0, false, false
+		}
+		n[i] = v
+	}
+	if n[0] > 3 || n[1] > 3 || n[2] > 1 {
+		return 0, 0, false, false
+	}
+	return n[0], n[1], n[2] == 1, true
 }
 
 func hx(b []byte) string { return hex.EncodeToString(b) }
@@ -142,14 +199,20 @@ func (s step) String() string {
 		}
 	}
 	for _, o := range s.ops {
-		switch o.kind {
-		case 'C':
-			b = append(b, fmt.Sprintf("C%s:%s:%d", hx([]byte(o.name)), hx([]byte(o.value)), o.attr))
-		case 'E':
-			b = append(b, "E")
-		default:
-			b = append(b, "A"+hx([]byte(o.value)))
-		}
+		b = append(b, o.String())
+	}
+	var x []string
+	if s.skip {
+		x = append(x, "S")
+	}
+	for _, o := range s.outerPre {
+		x = append(x, "O"+o.String())
+	}
+	for _, o := range s.outerPost {
+		x = append(x, "Q"+o.String())
+	}
+	for _, o := range s.ehOps {
+		x = append(x, "G"+o.String())
 	}
 	l, r := "-", "-"
 	if len(a) > 0 {
@@ -158,7 +221,67 @@ func (s step) String() string {
 	if len(b) > 0 {
 		r = strings.Join(b, "!")
 	}
+	if len(x) > 0 {
+		return l + "~" + r + "~" + strings.Join(x, "!")
+	}
 	return l + "~" + r
+}
+
+func (o op) String() string {
+	switch o.kind {
+	case 'C':
+		return fmt.Sprintf("C%s:%s:%d", hx([]byte(o.name)), hx([]byte(o.value)), o.attr)
+	case 'E':
+		return "E"
+	case 'P':
+		return "P"
+	case 'X':
+		return "X" + hx([]byte(o.name))
+	default:
+		return "A" + hx([]byte(o.value))
+	}
+}
+
+// parseOp reads one handler operation; `late` restricts it to the cookie writes C and A
+func parseOp(x string, late bool) (op, bool) {
+	if x == "" {
+		return op{}, false
+	}
+	switch x[0] {
+	case 'C':
+		f := strings.Split(x[1:], ":")
+		if len(f) != 3 {
+			return op{}, false
+		}
+		n, ok1 := unhx(f[0])
+		v, ok2 := unhx(f[1])
+		a, err := strconv.Atoi(f[2])
+		if !ok1 || !ok2 || err != nil || a < 0 || a >= nAttr {
+			return op{}, false
+		}
+		return op{kind: 'C', name: string(n), value: string(v), attr: a}, true
+	case 'A':
+		v, ok := unhx(x[1:])
+		if !ok {
+			return op{}, false
+		}
+		return op{kind: 'A', value: string(v)}, true
+	case 'X':
+		n, ok := unhx(x[1:])
+		if !ok || late {
+			return op{}, false
+		}
+		return op{kind: 'X', name: string(n)}, true
+	case 'E', 'P':
+		// the handler returns an error / panics after its other operations: the response then goes
+		// through the error handler (a panic only with a recover middleware in front), and its
+		// cookies must be encrypted all the same
+		if len(x) != 1 || late {
+			return op{}, false
+		}
+		return op{kind: x[0]}, true
+	}
+	return op{}, false
 }
 
 func stepsString(ss []step) string {
@@ -270,7 +393,7 @@ func parseSteps(s string) ([]step, bool) {
 	}
 	for _, st := range strings.Split(s, ";") {
 		lr := strings.Split(st, "~")
-		if len(lr) != 2 {
+		if len(lr) != 2 && len(lr) != 3 {
 			return nil, false
 		}
 		var cur step
@@ -303,36 +426,44 @@ func parseSteps(s string) ([]step, bool) {
 			}
 		}
 		if lr[1] != "-" {
+			ends := 0
 			for _, x := range strings.Split(lr[1], "!") {
+				o, ok := parseOp(x, false)
+				if !ok {
+					return nil, false
+				}
+				if o.kind == 'E' || o.kind == 'P' {
+					ends++
+				}
+				cur.ops = append(cur.ops, o)
+			}
+			if ends > 1 {
+				return nil, false
+			}
+		}
+		if len(lr) == 3 {
+			for _, x := range strings.Split(lr[2], "!") {
 				if x == "" {
 					return nil, false
 				}
+				if x == "S" {
+					if cur.skip {
+						return nil, false
+					}
+					cur.skip = true
+					continue
+				}
+				o, ok := parseOp(x[1:], true)
+				if !ok {
+					return nil, false
+				}
 				switch x[0] {
-				case 'C':
-					f := strings.Split(x[1:], ":")
-					if len(f) != 3 {
-						return nil, false
-					}
-					n, ok1 := unhx(f[0])
-					v, ok2 := unhx(f[1])
-					a, err := strconv.Atoi(f[2])
-					if !ok1 || !ok2 || err != nil || a < 0 || a >= nAttr {
-						return nil, false
-					}
-					cur.ops = append(cur.ops, op{kind: 'C', name: string(n), value: string(v), attr: a})
-				case 'A':
-					v, ok := unhx(x[1:])
-					if !ok {
-						return nil, false
-					}
-					cur.ops = append(cur.ops, op{kind: 'A', value: string(v)})
-				case 'E':
-					// the handler returns an error after its other operations: the response then goes
-					// through the error handler, and its cookies must be encrypted all the same
-					if x != "E" {
-						return nil, false
-					}
-					cur.ops = append(cur.ops, op{kind: 'E'})
+				case 'O':
+					cur.outerPre = append(cur.outerPre, o)
+				case 'Q':
+					cur.outerPost = append(cur.outerPost, o)
+				case 'G':
+					cur.ehOps = append(cur.ehOps, o)
 				default:
 					return nil, false
 				}
@@ -379,7 +510,7 @@ func refGCM(keyText string) (cipher.AEAD, bool) {
 }
 
 func refOpen(mode int, keyText, v string) (string, bool) {
-	if mode == 2 {
+	if mode >= 2 {
 		var ok bool
 		if v, ok = unwrap(v); !ok {
 			return "", false
@@ -407,7 +538,7 @@ func refSeal(mode int, keyText, plain string, rnd *gen.Rand) string {
 		nonce[i] = byte(rnd.U64())
 	}
 	s := base64.StdEncoding.EncodeToString(g.Seal(nonce, nonce, []byte(plain), nil))
-	if mode == 2 {
+	if mode >= 2 {
 		return wrap(s)
 	}
 	return s
@@ -418,7 +549,10 @@ func refSeal(mode int, keyText, plain string, rnd *gen.Rand) string {
 
 type kv struct{ k, v string }
 
-type rcookie struct{ key, raw, pkey, pvalue, tail string }
+type rcookie struct {
+	key, raw, pkey, pvalue, tail string
+	nameless                     bool // read as a nameless cookie (see asNameless)
+}
 
 func parseSetCookie(raw string) (pkey, pvalue, tail string) {
 	var ck fasthttp.Cookie
@@ -427,6 +561,20 @@ func parseSetCookie(raw string) (pkey, pvalue, tail string) {
 	ck.SetKey("")
 	ck.SetValue("")
 	return pkey, pvalue, ck.String()
+}
+
+// asNameless re-reads a Set-Cookie text the middleware wrote for a NAMELESS cookie of the handler
+// (`Set-Cookie: value`, what fasthttp renders for an empty key). When the encrypted value ends in base64
+// padding, fasthttp's parser reads such a text as a cookie NAMED like the ciphertext with the value "=" or
+// "": the text is ambiguous. The cookie at the same position was nameless when the handler left it, so
+// it is reported as what it is: name "", value = the first segment.
+func asNameless(c rcookie) rcookie {
+	seg := c.raw
+	if i := strings.IndexByte(seg, ';'); i >= 0 {
+		seg = seg[:i]
+	}
+	c.pkey, c.pvalue, c.nameless = "", strings.Trim(seg, " "), true
+	return c
 }
 
 const nAttr = 10
@@ -517,6 +665,11 @@ func applyMuts(v []byte, ms []mut) []byte {
 	return v
 }
 
+type lateOut struct {
+	replace bool
+	c       rcookie
+}
+
 type stepOut struct {
 	jar, enum, look []kv
 	stored          []string // Cookie header values as fasthttp stored them (before any cookie access)
@@ -525,9 +678,17 @@ type stepOut struct {
 	bind            [][]string // key, values...
 	bindErr         bool
 	hdr             string
-	pre             []rcookie
-	post            []rcookie // after the middleware (key, raw + parse)
-	opens           []string  // "x" or hc(plaintext)
+	hdrOthers       []string  // every other rendering of the Cookie header a handler can ask for
+	rawHdrBad       bool      // RequestHeader.RawHeaders() is not what the client sent
+	opre            []rcookie // response cookies when the middleware is entered
+	pre             []rcookie // ... when the handler behind it is done
+	mid             []rcookie // ... where the middleware is left
+	midTaken        bool
+	late            []lateOut // cookie writes executed after that
+	post            []rcookie // on the wire (key, raw + parse)
+	opens           []string  // "x" or hc(plaintext), for mid
+	nextCalls       int
+	nextResult      bool
 	panicked        bool
 	ran             bool
 	wireBad         bool
@@ -546,25 +707,72 @@ func validHeaderValue(v []byte) bool {
 
 var errMangled = fmt.Errorf("mangled")
 
-func buildRequest(hdrs [][]byte, direct []kv, req *fasthttp.Request) error {
+// buildRequest returns the header block it sent (what RawHeaders() must show)
+func buildRequest(hdrs [][]byte, direct []kv, skip bool, req *fasthttp.Request) (string, error) {
 	var raw bytes.Buffer
-	raw.WriteString("GET / HTTP/1.1\r\nHost: x\r\n")
+	raw.WriteString("GET / HTTP/1.1\r\n")
+	start := raw.Len()
+	raw.WriteString("Host: x\r\n")
+	if skip {
+		raw.WriteString("X-Skip: 1\r\n")
+	}
 	for _, h := range hdrs {
 		if !validHeaderValue(h) {
-			return errMangled
+			return "", errMangled
 		}
 		raw.WriteString("Cookie: ")
 		raw.Write(h)
 		raw.WriteString("\r\n")
 	}
 	raw.WriteString("\r\n")
+	block := string(raw.Bytes()[start:])
 	if err := req.Read(bufio.NewReaderSize(bytes.NewReader(raw.Bytes()), raw.Len()+4096)); err != nil {
-		return err
+		return "", err
 	}
 	for _, d := range direct {
 		req.Header.SetCookie(d.k, d.v)
 	}
-	return nil
+	return block, nil
+}
+
+func snapshot(h *fasthttp.ResponseHeader) []rcookie {
+	var out []rcookie
+	h.VisitAllCookie(func(k, v []byte) {
+		pk, pv, tl := parseSetCookie(string(v))
+		out = append(out, rcookie{key: string(k), raw: string(v), pkey: pk, pvalue: pv, tail: tl})
+	})
+	return out
+}
+
+// applyLate executes one cookie write of code that is not behind the middleware and reports what it
+// stored: c.Cookie = ResponseHeader.SetCookie (replaces the first cookie stored under that key, else
+// appends), Header.Add appends.
+func applyLate(ctx fiber.Ctx, o op) lateOut {
+	h := &ctx.Response().Header
+	if o.kind == 'C' {
+		ctx.Cookie(mkCookie(o))
+		raw := string(h.PeekCookie(o.name))
+		pk, pv, tl := parseSetCookie(raw)
+		return lateOut{true, rcookie{key: o.name, raw: raw, pkey: pk, pvalue: pv, tail: tl}}
+	}
+	h.Add("Set-Cookie", o.value)
+	all := snapshot(h)
+	return lateOut{false, all[len(all)-1]}
+}
+
+func applyOp(ctx fiber.Ctx, o op) {
+	switch o.kind {
+	case 'C':
+		ctx.Cookie(mkCookie(o))
+	case 'A':
+		ctx.Response().Header.Add("Set-Cookie", o.value)
+	case 'X':
+		if o.name == "" {
+			ctx.ClearCookie()
+		} else {
+			ctx.ClearCookie(o.name)
+		}
+	}
 }
 
 func runCase(id string, c cfgIn, steps []step) (aux, obs string, err error) {
@@ -576,12 +784,22 @@ func runCase(id string, c cfgIn, steps []step) (aux, obs string, err error) {
 	defer func() { crand.Reader = saved }()
 	sealRnd := rnd.Fork(2)
 
+	var cur *stepOut
+	var curStep step
+
 	conf := encryptcookie.Config{Key: c.key, Except: c.except}
 	switch c.mode {
 	case 1:
 		conf.Encryptor, conf.Decryptor = encryptcookie.EncryptCookie, encryptcookie.DecryptCookie
-	case 2:
+	case 2, 3:
+		faulty := c.mode == 3
 		conf.Encryptor = func(v, k string) (string, error) {
+			if faulty && strings.HasPrefix(v, "ERR") {
+				return "", fmt.Errorf("encryptor refuses")
+			}
+			if faulty && strings.HasPrefix(v, "PANIC") {
+				panic("encryptor panics")
+			}
 			s, e := encryptcookie.EncryptCookie(v, k)
 			if e != nil {
 				return "", e
@@ -589,6 +807,9 @@ func runCase(id string, c cfgIn, steps []step) (aux, obs string, err error) {
 			return wrap(s), nil
 		}
 		conf.Decryptor = func(v, k string) (string, error) {
+			if faulty && strings.HasPrefix(v, "PANIC") {
+				panic("decryptor panics")
+			}
 			s, ok := unwrap(v)
 			if !ok {
 				return "", fmt.Errorf("not wrapped")
@@ -596,9 +817,26 @@ func runCase(id string, c cfgIn, steps []step) (aux, obs string, err error) {
 			return encryptcookie.DecryptCookie(s, k)
 		}
 	}
-	var cur *stepOut
-	var curOps []op
-	app := fiber.New()
+	switch c.next {
+	case 1:
+		conf.Next = func(fiber.Ctx) bool { cur.nextCalls++; cur.nextResult = false; return false }
+	case 2:
+		conf.Next = func(ctx fiber.Ctx) bool {
+			cur.nextCalls++
+			cur.nextResult = ctx.Get("X-Skip") == "1"
+			return cur.nextResult
+		}
+	case 3:
+		conf.Next = func(fiber.Ctx) bool { cur.nextCalls++; cur.nextResult = true; return true }
+	}
+	app := fiber.New(fiber.Config{ErrorHandler: func(ctx fiber.Ctx, e error) error {
+		// code that is not behind the middleware: its cookies are written after the response loop
+		for _, o := range curStep.ehOps {
+			cur.late = append(cur.late, applyLate(ctx, o))
+		}
+		return fiber.DefaultErrorHandler(ctx, e)
+	}})
+	var mw fiber.Handler
 	ctorPanic := false
 	func() {
 		defer func() {
@@ -606,11 +844,36 @@ func runCase(id string, c cfgIn, steps []step) (aux, obs string, err error) {
 				ctorPanic = true
 			}
 		}()
-		app.Use(encryptcookie.New(conf))
+		mw = encryptcookie.New(conf)
 	}()
 	if ctorPanic {
 		return "-", "ctorpanic", nil
 	}
+	if c.rec {
+		app.Use(rec.New())
+	}
+	// the observer: a middleware registered in front of encryptcookie
+	app.Use(func(ctx fiber.Ctx) error {
+		st := cur
+		for _, o := range curStep.outerPre {
+			applyOp(ctx, o)
+		}
+		st.opre = snapshot(&ctx.Response().Header)
+		returned := false
+		defer func() {
+			if !returned { // a panic passes through
+				st.mid, st.midTaken = snapshot(&ctx.Response().Header), true
+			}
+		}()
+		e := ctx.Next()
+		returned = true
+		st.mid, st.midTaken = snapshot(&ctx.Response().Header), true
+		for _, o := range curStep.outerPost {
+			st.late = append(st.late, applyLate(ctx, o))
+		}
+		return e
+	})
+	app.Use(mw)
 	app.Use(func(ctx fiber.Ctx) error {
 		st := cur
 		st.ran = true
@@ -636,21 +899,48 @@ func runCase(id string, c cfgIn, steps []step) (aux, obs string, err error) {
 			}
 		}
 		st.hdr = strings.Clone(ctx.Get("Cookie"))
-		fail := false
-		for _, o := range curOps {
-			switch o.kind {
-			case 'C':
-				ctx.Cookie(mkCookie(o))
-			case 'E':
-				fail = true
-			default:
-				ctx.Response().Header.Add("Set-Cookie", o.value)
+		// every other way to ask for the Cookie header: PeekAll, the re-serialised header block,
+		// the header map
+		others := map[string]bool{}
+		for _, v := range ctx.Request().Header.PeekAll("Cookie") {
+			others[string(v)] = true
+		}
+		// (the Cookie line is the last header of the re-serialised block; a cookie value may itself
+		// contain CR/LF when it was put into the request with SetCookie, so no splitting into lines)
+		if blk := ctx.Request().Header.String(); true {
+			if i := strings.Index(blk, "\r\nCookie: "); i >= 0 {
+				others[strings.TrimSuffix(blk[i+len("\r\nCookie: "):], "\r\n\r\n")] = true
 			}
 		}
-		ctx.Response().Header.VisitAllCookie(func(k, v []byte) {
-			pk, pv, tl := parseSetCookie(string(v))
-			st.pre = append(st.pre, rcookie{string(k), string(v), pk, pv, tl})
-		})
+		for k, vs := range ctx.GetReqHeaders() {
+			if strings.EqualFold(k, "Cookie") {
+				for _, v := range vs {
+					others[v] = true
+				}
+			}
+		}
+		for v := range others {
+			st.hdrOthers = append(st.hdrOthers, v)
+		}
+		sort.Strings(st.hdrOthers)
+		if string(ctx.Request().Header.RawHeaders()) != curRaw {
+			st.rawHdrBad = true
+		}
+		fail, pan := false, false
+		for _, o := range curStep.ops {
+			switch o.kind {
+			case 'E':
+				fail = true
+			case 'P':
+				pan = true
+			default:
+				applyOp(ctx, o)
+			}
+		}
+		st.pre = snapshot(&ctx.Response().Header)
+		if pan {
+			panic("handler panicked")
+		}
 		if fail {
 			return fiber.NewError(fiber.StatusTeapot, "handler failed")
 		}
@@ -691,11 +981,11 @@ func runCase(id string, c cfgIn, steps []step) (aux, obs string, err error) {
 		}
 		// the request cookies as fasthttp sees them, taken from a second, untouched copy
 		var probe fasthttp.Request
-		if e := buildRequest(hdrs, direct, &probe); e != nil {
+		if _, e := buildRequest(hdrs, direct, s.skip, &probe); e != nil {
 			return "", "", errMangled
 		}
 		var probe2 fasthttp.Request
-		if e := buildRequest(hdrs, nil, &probe2); e != nil {
+		if _, e := buildRequest(hdrs, nil, s.skip, &probe2); e != nil {
 			return "", "", errMangled
 		}
 		for _, v := range probe2.Header.PeekAll("Cookie") {
@@ -717,12 +1007,13 @@ func runCase(id string, c cfgIn, steps []step) (aux, obs string, err error) {
 			}
 		}
 		var req fasthttp.Request
-		if e := buildRequest(hdrs, direct, &req); e != nil {
+		block, e := buildRequest(hdrs, direct, s.skip, &req)
+		if e != nil {
 			return "", "", errMangled
 		}
 		var fctx fasthttp.RequestCtx
 		fctx.Init(&req, nil, nil)
-		cur, curOps = st, s.ops
+		cur, curStep, curRaw = st, s, block
 		func() {
 			defer func() {
 				if r := recover(); r != nil {
@@ -731,11 +1022,14 @@ func runCase(id string, c cfgIn, steps []step) (aux, obs string, err error) {
 			}()
 			handler(&fctx)
 		}()
+		if !st.midTaken {
+			return "", "", fmt.Errorf("observer did not run")
+		}
+		if !st.ran {
+			st.pre = st.opre
+		}
 		if !st.panicked {
-			fctx.Response.Header.VisitAllCookie(func(k, v []byte) {
-				pk, pv, tl := parseSetCookie(string(v))
-				st.post = append(st.post, rcookie{string(k), string(v), pk, pv, tl})
-			})
+			st.post = snapshot(&fctx.Response.Header)
 			// the bytes on the wire must be the same list
 			var wire []string
 			for _, l := range strings.Split(string(fctx.Response.Header.Header()), "\r\n") {
@@ -752,42 +1046,95 @@ func runCase(id string, c cfgIn, steps []step) (aux, obs string, err error) {
 					}
 				}
 			}
-			for _, p := range st.post {
-				if pl, ok := refOpen(c.mode, c.key, p.pvalue); ok {
-					st.opens = append(st.opens, hc(pl))
-				} else {
-					st.opens = append(st.opens, "x")
-				}
+		}
+		// nameless cookies of the handler keep their position through the middleware (and on the wire,
+		// unless a late write replaced them)
+		for i := range st.mid {
+			if i < len(st.pre) && st.pre[i].pkey == "" && st.mid[i].pkey != "" {
+				st.mid[i] = asNameless(st.mid[i])
+			}
+			if i < len(st.post) && st.post[i].raw == st.mid[i].raw && st.mid[i].nameless {
+				st.post[i] = asNameless(st.post[i])
+			}
+		}
+		for _, p := range st.mid {
+			if pl, ok := refOpen(c.mode, c.key, p.pvalue); ok {
+				st.opens = append(st.opens, hc(pl))
+			} else {
+				st.opens = append(st.opens, "x")
 			}
 		}
 		outs[si] = st
 	}
 
+	lst := func(x []string) string {
+		if len(x) == 0 {
+			return "-"
+		}
+		return strings.Join(x, ",")
+	}
+	full := func(rs []rcookie) string {
+		out := []string{}
+		for _, r := range rs {
+			out = append(out, strings.Join([]string{hc(r.key), hc(r.raw), hc(r.pkey), hc(r.pvalue), hc(r.tail)}, ":"))
+		}
+		return lst(out)
+	}
+	parseOnly := func(rs []rcookie) string {
+		out := []string{}
+		for _, r := range rs {
+			e := strings.Join([]string{hc(r.pkey), hc(r.pvalue), hc(r.tail)}, ":")
+			if r.nameless {
+				e += ":n"
+			}
+			out = append(out, e)
+		}
+		return lst(out)
+	}
+	keyRaw := func(rs []rcookie) string {
+		var j []kv
+		for _, r := range rs {
+			j = append(j, kv{r.key, r.raw})
+		}
+		return jarField(j)
+	}
 	var auxs, obss []string
-	for _, st := range outs {
+	for si, st := range outs {
+		s := steps[si]
 		ks := make([]string, len(st.lookKeys))
 		for i, k := range st.lookKeys {
 			ks[i] = hc(k)
-		}
-		rs, ps := []string{}, []string{}
-		for _, r := range st.pre {
-			rs = append(rs, strings.Join([]string{hc(r.key), hc(r.raw), hc(r.pkey), hc(r.pvalue), hc(r.tail)}, ":"))
-		}
-		for _, r := range st.post {
-			ps = append(ps, strings.Join([]string{hc(r.pkey), hc(r.pvalue), hc(r.tail)}, ":"))
-		}
-		lst := func(x []string) string {
-			if len(x) == 0 {
-				return "-"
-			}
-			return strings.Join(x, ",")
 		}
 		qs := make([]string, len(st.stored))
 		for i, v := range st.stored {
 			qs[i] = hc(v)
 		}
-		auxs = append(auxs, "J"+jarField(st.jar)+"/K"+lst(ks)+"/R"+lst(rs)+"/P"+lst(ps)+"/T"+lst(st.opens)+
-			"/Q"+lst(qs)+"/D"+jarField(st.direct))
+		skip := "0"
+		if c.next == 3 || (c.next == 2 && s.skip) {
+			skip = "1"
+		}
+		flow := "o"
+		for _, o := range s.ops {
+			if o.kind == 'E' {
+				flow = "e"
+			}
+			if o.kind == 'P' {
+				flow = "p"
+			}
+		}
+		if !st.ran {
+			flow = "o" // no handler behind the middleware ran: nothing it could do
+		}
+		var lates []string
+		for _, l := range st.late {
+			k := "a"
+			if l.replace {
+				k = "r"
+			}
+			lates = append(lates, strings.Join([]string{k, hc(l.c.key), hc(l.c.raw), hc(l.c.pkey), hc(l.c.pvalue), hc(l.c.tail)}, ":"))
+		}
+		auxs = append(auxs, "J"+jarField(st.jar)+"/K"+lst(ks)+"/R"+full(st.pre)+"/P"+parseOnly(st.mid)+"/T"+lst(st.opens)+
+			"/Q"+lst(qs)+"/D"+jarField(st.direct)+"/N"+skip+"/F"+flow+"/O"+full(st.opre)+"/A"+lst(lates)+"/U"+parseOnly(st.post))
 		var bs []string
 		for _, row := range st.bind {
 			cs := make([]string, len(row))
@@ -798,27 +1145,42 @@ func runCase(id string, c cfgIn, steps []step) (aux, obs string, err error) {
 		}
 		w := "panic"
 		if !st.panicked {
-			var post []kv
-			for _, r := range st.post {
-				post = append(post, kv{r.key, r.raw})
-			}
-			w = jarField(post)
+			w = keyRaw(st.post)
 			if st.wireBad {
 				w += "!wire"
 			}
 		}
-		o := "E" + jarField(st.enum) + "/L" + jarField(st.look) + "/B" + lst(bs) + "/H" + hc(st.hdr) + "/W" + w
-		if !st.ran {
-			// the handler was never reached (the middleware panicked on the way in)
-			o = "E-/L-/B-/H_/W" + w + "!norun"
+		hs := []string{hc(st.hdr)}
+		for _, v := range st.hdrOthers {
+			hs = append(hs, hc(v))
 		}
+		nx := "-"
+		if c.next != 0 || st.nextCalls != 0 {
+			r := 0
+			if st.nextResult {
+				r = 1
+			}
+			nx = fmt.Sprintf("%d.%d", st.nextCalls, r)
+		}
+		ran := "1"
+		if !st.ran {
+			ran = "0"
+		}
+		o := "V" + ran + "/E" + jarField(st.enum) + "/L" + jarField(st.look) + "/B" + lst(bs) + "/H" + strings.Join(hs, ":") +
+			"/N" + nx + "/M" + keyRaw(st.mid) + "/W" + w
 		if st.bindErr {
 			o += "!binderr"
+		}
+		if st.rawHdrBad {
+			o += "!rawhdr"
 		}
 		obss = append(obss, o)
 	}
 	return strings.Join(auxs, ";"), strings.Join(obss, ";"), nil
 }
+
+// the header block of the request being served (what RequestHeader.RawHeaders() must show)
+var curRaw string
 
 func emit(w *gen.Writer, id string, c cfgIn, steps []step) {
 	if len(steps) == 0 {
@@ -829,7 +1191,7 @@ func emit(w *gen.Writer, id string, c cfgIn, steps []step) {
 		w.Count("skipped-unbuildable")
 		return
 	}
-	w.Case(id, gen.Hex(c.key), gen.HexList(c.except), gen.I(c.mode), gen.Hex(c.okey), stepsString(steps), aux, obs)
+	w.Case(id, gen.Hex(c.key), gen.HexList(c.except), c.modeField(), gen.Hex(c.okey), stepsString(steps), aux, obs)
 }
 
 func main() {
@@ -848,15 +1210,15 @@ func main() {
 				if len(f) < 6 {
 					return
 				}
-				mode, err := strconv.Atoi(f[3])
-				if err != nil || mode < 0 || mode > 2 {
+				mode, next, rc, ok := parseModeField(f[3])
+				if !ok {
 					return
 				}
 				steps, ok := parseSteps(f[5])
 				if !ok {
 					return
 				}
-				c := cfgIn{key: gen.UnHex(f[1]), except: gen.UnHexList(f[2]), mode: mode, okey: gen.UnHex(f[4])}
+				c := cfgIn{key: gen.UnHex(f[1]), except: gen.UnHexList(f[2]), mode: mode, next: next, rec: rc, okey: gen.UnHex(f[4])}
 				emit(w, f[0], c, steps)
 			}()
 		}
